@@ -73,9 +73,47 @@ def amb_data(spec, amb):
     pr = amb.get('prob', {'kind': 'free'})
     kind = pr['kind']
     pcurved = None
-    if kind in ('n2', 'kl'):
-        if amb.get('expts'):
-            raise ValueError('curved probability sets are only supported without expectation sets')
+    if kind in ('n2', 'kl') and amb.get('expts'):
+        # curved probability set AND expectation sets: two scenarios with singleton supports.  The ambiguity set is then
+        # an interval of p0 (every condition is convex in p0), found by a dense scan + bisection on the closed-form
+        # membership tests; a linear functional of p attains its maximum at one of the two end points.
+        if ns != 2 or any(len(V) != 1 for V in Vs):
+            raise ValueError('curved probability sets with expectation sets: S == 2 and singleton supports only')
+        ppc = ({'k': 'n2', 'c': list(pr['phat']), 'r': pr['r']} if kind == 'n2'
+               else {'k': 'kl', 'q': list(pr['phat']), 'r': pr['r']})
+        zh = np.array([Vs[0][0], Vs[1][0]], float)
+
+        def inside(p0):
+            pv = np.array([p0, 1.0 - p0])
+            if S.piece_resid(ppc, pv[None, :])[0] > 0:
+                return False
+            for ex in amb['expts']:
+                pe = sum(pv[s_] for s_ in ex['event'])
+                if pe <= 0:
+                    continue
+                mean = sum(pv[s_] * zh[s_] for s_ in ex['event']) / pe
+                if S.resid(ex['pieces'], mean[None, :])[0] > 1e-12:
+                    return False
+            return True
+        grid = np.linspace(0.0, 1.0, 4001)
+        ok = [g for g in grid if inside(g)]
+        if not ok:
+            raise ValueError('empty ambiguity set')
+        ends = []
+        for inner, outer in ((min(ok), max(0.0, min(ok) - 0.00025)), (max(ok), min(1.0, max(ok) + 0.00025))):
+            if inside(outer):
+                ends.append(outer)
+                continue
+            a_, b_ = inner, outer
+            for _ in range(80):
+                mid = 0.5 * (a_ + b_)
+                if inside(mid):
+                    a_ = mid
+                else:
+                    b_ = mid
+            ends.append(a_)
+        pcurved = np.array([[e_, 1.0 - e_] for e_ in ends])
+    elif kind in ('n2', 'kl'):
         pcs = [{'k': 'eq', 'A': [[1.0] * ns], 'b': [1.0]}]
         pcs.append({'k': 'n2', 'c': list(pr['phat']), 'r': pr['r']} if kind == 'n2'
                    else {'k': 'kl', 'q': list(pr['phat']), 'r': pr['r']})
